@@ -199,7 +199,7 @@ pub fn run(ctx: &Ctx) -> Report {
     }
     total.merge(st);
     total.exhaustive_parts.push("every unsupported test, action, format directive (first/middle/last position, after \\c) and the positional option, alone, negated, in dead branches and nested".into());
-    let cases = ctx.tier.pick(30_000u32, 600_000u32);
+    let cases = ctx.tier.pick(300_000u32, 3_000_000u32);
     let rnd = run_shards(16, |shard| {
         let mut st = Stats::new();
         let strat = gen::expr_over(full_leaf(), 5, 20, true);
